@@ -404,4 +404,17 @@ BINDINGS = [
          calls={"self._path.split": "((), filename){_0}", "self.filesystem.listdir": "(containing.getD []){_0}", "self._path.join": "{_0}{1}"},
          truthy={"self.filesystem.isdir()": "(containing ≠ none)"},
          methods={"lower": "(lower {self})", "isdir": "(containing ≠ none){_0}"}),
+
+    # ---- TimingEngine._coalesce_warps: the two BeatValues lists hold beats only in the model (the values are all zero)
+    dict(file="simfile/timing/engine.py", qual="TimingEngine._coalesce_warps", module="Coalesce", lean="coalesceWarps", ret_mode="plain",
+         state_params=[("warps", "List (Rat × Rat)")], params=[], ignore_params=["self"],
+         ret="List (List Rat × Tag)", model="coalesceWarps", theorem="coalesceWarps_eq", properties=["C11", "C12", "C13"],
+         imports=ENGINE_IMPORTS, names={**TAGS, "self.timing_data.warps": "warps"},
+         local_types={"warp_starts": "List Rat", "warp_ends": "List Rat"},
+         exprs={"warp_ends[-1].beat": "(warp_ends.getLast?.getD 0)"},
+         fields={"beat": "1", "value": "2"}, truthy={"warp_starts": "(warp_starts ≠ [])"},
+         calls={"Decimal": "{0}", "BeatValues": "[]", "Beat": "(roundToTick {0})", "BeatValue": "{beat}{_value}"},
+         mutations={"warp_starts.append()": ("warp_starts", "(warp_starts ++ [{0}])", False),
+                    "warp_ends.append()": ("warp_ends", "(warp_ends ++ [{0}])", False),
+                    "warp_ends[]=": ("warp_ends", "(warp_ends.dropLast ++ [{rawvalue}])")}),
 ]
